@@ -117,8 +117,17 @@ NOINST static void drain_queue(const char *qname, uint8_t *(*rd)(void), int limi
 typedef struct { int idx, nlines; char **lines; pthread_barrier_t *bar; } worker_t;
 NOINST static int exec_step(int argc, char **argv);
 
+extern __thread int hx_widx;
+extern atomic_int sp_paused, sp_release;
+extern void mon_pause_arm(int kind, int val, int k, int fn);
+extern int mon_pause_disarm(void);
+extern int bus_is_quiescent(void);
+static atomic_int worker_done[64];
+static int pause_kind = 0, pause_val = 0;
+
 NOINST static void *worker_main(void *p) {
 	worker_t *w = p;
+	hx_widx = w->idx;
 	pthread_barrier_wait(w->bar);
 	for (int i = 0; i < w->nlines; i++) {
 		char *dup = strdup(w->lines[i]);
@@ -128,6 +137,7 @@ NOINST static void *worker_main(void *p) {
 		if (ac) exec_step(ac, av);
 		free(av); free(dup);
 	}
+	worker_done[w->idx] = 1;
 	return NULL;
 }
 
@@ -190,6 +200,37 @@ NOINST static int exec_step(int argc, char **argv) {
 	if (!strcmp(op, "keep") && argc >= 2) { snap_keep_and_check(argv[1]); return 0; }
 	if (!strcmp(op, "logerr") && argc >= 2) { extern atomic_int mon_log_errors; mon_log_errors = atoi(argv[1]); return 0; }
 	if (!strcmp(op, "dumplog")) { mon_dump_log(argc >= 2 ? atoi(argv[1]) : 40); return 0; }
+	if (!strcmp(op, "settle")) {
+		/* like quiesce, but also satisfied when the receiver is serialised behind a lock some other thread holds (directed pause scenarios) */
+		extern int mon_receiver_blocked(void);
+		int max_us = (argc >= 2 ? atoi(argv[1]) : 5000) * 1000, w = 0, st = 0, why = 0;
+		while (w < max_us) {
+			if (bus_is_quiescent()) { if (++st >= 3) { why = 1; break; } }
+			else if (mon_receiver_blocked()) { if (++st >= 3) { why = 2; break; } }
+			else st = 0;
+			__real_usleep(50); w += 50;
+		}
+		ev("\"e\":\"settled\",\"why\":%d", why);
+		return 0;
+	}
+	if (!strcmp(op, "waitpaused")) {
+		/* returns when the pause target is paused, or when it can no longer reach the pause point (its work is done) */
+		int max_us = (argc >= 2 ? atoi(argv[1]) : 5000) * 1000, w = 0, gone = 0;
+		while (sp_paused != 1 && w < max_us) {
+			if (pause_kind == 2 && worker_done[pause_val & 63]) { gone = 1; break; }
+			if (pause_kind == 1 && pause_val == ROLE_RECEIVER && bus_is_quiescent()) { if (++gone >= 3) break; } else gone = 0;
+			__real_usleep(50); w += 50;
+		}
+		ev("\"e\":\"waitpaused\",\"paused\":%d,\"gone\":%d", sp_paused == 1, gone != 0);
+		return 0;
+	}
+	if (!strcmp(op, "release")) {
+		int was = sp_paused;
+		int cnt = mon_pause_disarm();
+		for (int w = 0; was == 1 && sp_paused == 1 && w < 2000000; w += 50) __real_usleep(50);
+		ev("\"e\":\"sched\",\"points\":%d,\"paused\":%d", cnt, was != 0);
+		return 0;
+	}
 	if (!strcmp(op, "mark")) { ev("\"e\":\"mark\",\"m\":\"%s\",\"vt\":%lld", argc >= 2 ? argv[1] : "", (long long)vt_usec); return 0; }
 	if (!strcmp(op, "sleepreal") && argc >= 2) { __real_usleep(atoi(argv[1])); return 0; }
 	if (!strcmp(op, "yield")) { sched_yield(); return 0; }
@@ -207,6 +248,19 @@ NOINST static int exec_main_step(int argc, char **argv, FILE *f) {
 	if (!strcmp(op, "contracts") && argc >= 2) { mon_contracts_on = atoi(argv[1]); return 0; }
 	if (!strcmp(op, "arm") && argc >= 2) { mon_armed = atoi(argv[1]); return 0; }
 	if (!strcmp(op, "debug") && argc >= 2) { bidib_set_lowlevel_debug_mode(atoi(argv[1]) != 0); return 0; }
+	if (!strcmp(op, "pause") && argc >= 3) {
+		/* pause recv|af|main|w<i> <k> [fn] */
+		int kind = 1, val = ROLE_RECEIVER;
+		if (!strcmp(argv[1], "recv")) { kind = 1; val = ROLE_RECEIVER; }
+		else if (!strcmp(argv[1], "af")) { kind = 1; val = ROLE_AUTOFLUSH; }
+		else if (!strcmp(argv[1], "main")) { kind = 3; val = 0; }
+		else if (argv[1][0] == 'w') { kind = 2; val = atoi(argv[1] + 1); }
+		else return 2;
+		pause_kind = kind; pause_val = val;
+		for (int i = 0; i < 64; i++) worker_done[i] = 0;
+		mon_pause_arm(kind, val, atoi(argv[2]), argc >= 4 && !strcmp(argv[3], "fn"));
+		return 0;
+	}
 	if (!strcmp(op, "bus")) { if (bus_config_line(argc, argv)) { ev("\"e\":\"harness_error\",\"why\":\"bad bus line\""); return 2; } return 0; }
 	if (!strcmp(op, "start") && argc >= 3) {
 		const char *dir = !strcmp(argv[1], "@null") ? NULL : argv[1];
